@@ -1,11 +1,11 @@
 #!/bin/bash
 # Copies every confirmed sub-agent seed (/tmp/wt/{m,n}-Cnn-out/{a,b} with confirm.json "confirmed": true) into /verif/seeded/<id>/
-for d in /tmp/wt/[mnpqr]-*-out/a /tmp/wt/[mnpqr]-*-out/b; do
+for d in /tmp/wt/[mnpqrs]-*-out/a /tmp/wt/[mnpqrs]-*-out/b; do
   [ -f "$d/confirm.json" ] || continue
   ok=$(python3 -c "import json;print(json.load(open('$d/confirm.json')).get('confirmed'))")
   [ "$ok" = True ] || { echo "not confirmed: $d"; continue; }
-  base=$(basename "$(dirname "$d")"); prop=$(echo "$base" | sed 's/^[mnpqr]-//; s/-out$//'); wave=$(echo "$base" | cut -c1)
-  id="$prop$(basename $d)"; [ "$wave" = n ] && id="${id}2"; [ "$wave" = p ] && id="${id}3"; [ "$wave" = q ] && id="${id}4"; [ "$wave" = r ] && id="${id}5"
+  base=$(basename "$(dirname "$d")"); prop=$(echo "$base" | sed 's/^[mnpqrs]-//; s/-out$//'); wave=$(echo "$base" | cut -c1)
+  id="$prop$(basename $d)"; [ "$wave" = n ] && id="${id}2"; [ "$wave" = p ] && id="${id}3"; [ "$wave" = q ] && id="${id}4"; [ "$wave" = r ] && id="${id}5"; [ "$wave" = s ] && id="${id}6"
   [ -d "/verif/seeded/$id" ] && continue
   mkdir -p "/verif/seeded/$id"; cp "$d/patch.diff" "$d/demo.py" "$d/meta.json" "$d/confirm.json" "/verif/seeded/$id/"; echo "imported $id"
 done
